@@ -17,7 +17,7 @@ use std;
 
 use abortable_parser::combinators::*;
 use abortable_parser::iter::SliceIter;
-use abortable_parser::{Error, Result};
+use abortable_parser::{Error, Positioned, Result};
 
 use crate::ast::*;
 use crate::error::BuildError;
@@ -562,6 +562,15 @@ pub fn tokenize<'a>(
                         continue;
                     }
                     (&mut Some(ref mut map), _) => {
+                        // A comment token ends with its own line, so the
+                        // indentation in front of the next comment does not
+                        // end the group. Only a blank line does.
+                        if tok.typ == TokenType::WS
+                            && comment_was_last.is_some()
+                            && i.line() == tok.pos.line
+                        {
+                            continue;
+                        }
                         if tok.typ != TokenType::WS {
                             out.push(tok);
                         }
